@@ -624,7 +624,7 @@ func runC07(c *Ctx) {
 			}
 			switch op.how {
 			case c7Named:
-				op.name = pick(g, "a", "svc", "", "x.y", "b")
+				op.name = pick(g, "a", "svc", "", "x.y", "b", ".edge", "tail.", ".", "a b")
 				if g.Chance(2) {
 					// aim at the sizes where fixed-size storage for "short" names
 					// would end: the segment is as long as it takes for the joined
